@@ -55,14 +55,14 @@ func c11secret(r *vlib.Rng, tag string) (secret, core string) {
 }
 
 type c11case struct {
-	fault string // "", "wfail-secret", "eof-secret", "wfail-return" (fault injected at the write that carries a secret / at the next write)
-	seed uint64
-	kind string // escalate-ask, escalate-noask, escalate-reject, telnet, ssh, ssh-passphrase, platform-redacted
-	level string
+	fault   string // "", "wfail-secret", "eof-secret", "wfail-return" (fault injected at the write that carries a secret / at the next write)
+	seed    uint64
+	kind    string // escalate-ask, escalate-noask, escalate-reject, telnet, ssh, ssh-passphrase, platform-redacted, interactive-hidden-*, onx-generic, onx-network, hidden-onopen (c11_onx.go)
+	level   string
 	rejects int
 }
 
-func runC11case(cs c11case) (leaks []string, info string, nmsgs int, redactedWrites int) {
+func runC11case(cs c11case) (leaks []string, info string, nmsgs int, redactedWrites int, errLogged int, retCarries bool) {
 	r := vlib.NewRng(cs.seed)
 	cap := &capture{}
 	li, _ := logging.NewInstance(logging.WithLevel(cs.level), logging.WithLogger(cap.log))
@@ -73,6 +73,8 @@ func runC11case(cs c11case) (leaks []string, info string, nmsgs int, redactedWri
 	note := func(s, c string) { secrets = append(secrets, s); cores = append(cores, c) }
 	segs := []func(int) int{nil, sim.SegFixed(1), sim.SegFixed(5)}
 	seg := segs[r.Intn(len(segs))]
+	var extra []c11needles // secrets that are not strings (their renderings), see c11_onx.go
+	var retErr []string    // texts of errors returned to the caller
 	// fault injection keyed on the secret's core: the write that carries a secret fails, or the
 	// device drops the session right after receiving it, or the write after it (the return) fails
 	sawSecret := false
@@ -97,7 +99,14 @@ func runC11case(cs c11case) (leaks []string, info string, nmsgs int, redactedWri
 		}
 		return false, false
 	}
+	env := &c11env{r: r, common: common, seg: seg, fault: fault, note: note, extra: &extra, retErr: &retErr}
 	switch cs.kind {
+	case "onx-generic":
+		info = runC11onx(env, false)
+	case "onx-network":
+		info = runC11onx(env, true)
+	case "hidden-onopen":
+		info = runC11hiddenOnOpen(env)
 	case "escalate-ask", "escalate-noask", "escalate-reject":
 		sec, core := c11secret(r, "EN")
 		note(sec, core)
@@ -111,11 +120,11 @@ func runC11case(cs c11case) (leaks []string, info string, nmsgs int, redactedWri
 		dev.Start()
 		p, err := platform.NewPlatform("cisco_iosxe", "h", append(common, options.WithCustomTransport(dev), options.WithAuthBypass(), options.WithAuthSecondary(sec))...)
 		if err != nil {
-			return nil, "platform: " + err.Error(), 0, 0
+			return nil, "platform: " + err.Error(), 0, 0, 0, false
 		}
 		d, err := p.GetNetworkDriver()
 		if err != nil {
-			return nil, "driver: " + err.Error(), 0, 0
+			return nil, "driver: " + err.Error(), 0, 0, 0, false
 		}
 		err = d.Open()
 		info = "open:" + errClass(err)
@@ -151,7 +160,7 @@ func runC11case(cs c11case) (leaks []string, info string, nmsgs int, redactedWri
 		dev.Start()
 		d, err := generic.NewDriver("h", append(common, options.WithCustomTransport(dev), options.WithAuthUsername("admin"), options.WithAuthPassword(typed))...)
 		if err != nil {
-			return nil, "driver: " + err.Error(), 0, 0
+			return nil, "driver: " + err.Error(), 0, 0, 0, false
 		}
 		if typed != pass {
 			note(typed, core)
@@ -188,7 +197,7 @@ func runC11case(cs c11case) (leaks []string, info string, nmsgs int, redactedWri
 			d, err := generic.NewDriver("h", append(common, options.WithCustomTransport(dev), options.WithAuthBypass(),
 				options.WithFailedWhenContains([]string{"% Access denied", "% Invalid input"}))...)
 			if err != nil {
-				return nil, "driver: " + err.Error(), 0, 0
+				return nil, "driver: " + err.Error(), 0, 0, 0, false
 			}
 			err = d.Open()
 			info = "generic open:" + errClass(err)
@@ -204,11 +213,11 @@ func runC11case(cs c11case) (leaks []string, info string, nmsgs int, redactedWri
 			p, err := platform.NewPlatform("cisco_iosxe", "h", append(common, options.WithCustomTransport(dev), options.WithAuthBypass(),
 				options.WithDefaultDesiredPriv("exec"), options.WithFailedWhenContains([]string{"% Access denied", "% Invalid input"}))...)
 			if err != nil {
-				return nil, "platform: " + err.Error(), 0, 0
+				return nil, "platform: " + err.Error(), 0, 0, 0, false
 			}
 			d, err := p.GetNetworkDriver()
 			if err != nil {
-				return nil, "driver: " + err.Error(), 0, 0
+				return nil, "driver: " + err.Error(), 0, 0, 0, false
 			}
 			err = d.Open()
 			info = "network open:" + errClass(err)
@@ -245,11 +254,11 @@ func runC11case(cs c11case) (leaks []string, info string, nmsgs int, redactedWri
 		dev.Mu.Unlock()
 		p, err := platform.NewPlatform([]byte(yaml), "h", append(common, options.WithCustomTransport(dev), options.WithAuthBypass())...)
 		if err != nil {
-			return nil, "platform: " + err.Error(), 0, 0
+			return nil, "platform: " + err.Error(), 0, 0, 0, false
 		}
 		d, err := p.GetGenericDriver()
 		if err != nil {
-			return nil, "driver: " + err.Error(), 0, 0
+			return nil, "driver: " + err.Error(), 0, 0, 0, false
 		}
 		err = d.Open()
 		info = "open:" + errClass(err)
@@ -267,9 +276,34 @@ func runC11case(cs c11case) (leaks []string, info string, nmsgs int, redactedWri
 		if strings.Contains(m, "channel write \"redacted\"") {
 			redactedWrites++
 		}
+		if strings.Contains(m, "error executing") || strings.Contains(m, "error running network on close") {
+			errLogged++
+		}
 		for i, core := range cores {
 			if strings.Contains(m, core) || strings.Contains(m, secrets[i]) {
 				leaks = append(leaks, "logger: "+m)
+			}
+		}
+		for i := range extra {
+			if extra[i].hit(m) {
+				leaks = append(leaks, "logger: "+m)
+			}
+		}
+	}
+	for i := range extra {
+		if extra[i].hit(cap.chl.String()) {
+			leaks = append(leaks, "channel log contains the secret")
+		}
+	}
+	for _, t := range retErr {
+		for i, core := range cores {
+			if strings.Contains(t, core) || strings.Contains(t, secrets[i]) {
+				retCarries = true
+			}
+		}
+		for i := range extra {
+			if extra[i].hit(t) {
+				retCarries = true
 			}
 		}
 	}
@@ -278,7 +312,7 @@ func runC11case(cs c11case) (leaks []string, info string, nmsgs int, redactedWri
 			leaks = append(leaks, "channel log contains the secret")
 		}
 	}
-	return leaks, info, nmsgs, redactedWrites
+	return leaks, info, nmsgs, redactedWrites, errLogged, retCarries
 }
 
 func closeQuietly(f func() error) {
@@ -296,8 +330,9 @@ func closeQuietly(f func() error) {
 
 func runC11(c *ctx) {
 	res := c.res
-	res.Rule = "sessions with a capturing logger (debug/info/critical) and a channel-log writer: platform cisco_iosxe on-open + escalation (device asks / does not ask / rejects), in-channel telnet and ssh logins (0-3 rejections, wrong password, key passphrase), platform on-open redacted write; secrets random around a unique core, decorated with format verbs, quotes and regex metacharacters. non-trivial = session in which at least one secret was actually transmitted redacted; distinct by seed"
-	kinds := []string{"escalate-ask", "escalate-ask", "escalate-noask", "escalate-reject", "telnet", "telnet", "ssh", "ssh-passphrase", "platform-redacted", "interactive-hidden-failed", "interactive-hidden-ok"}
+	res.Rule = "sessions with a capturing logger (debug/info/critical) and a channel-log writer: platform cisco_iosxe on-open + escalation (device asks / does not ask / rejects), in-channel telnet and ssh logins (0-3 rejections, wrong password, key passphrase), platform on-open redacted write; platform on-open / on-close sequences (generic and network layer, block and flow spelling) whose redacted input is not a YAML string (int, hex, float, bool, null, list, map, timestamp, missing) or whose operation is malformed, so that the driver logs the returned error; on-open / on-close functions that run a hidden SendInteractive dialogue and return its error; write faults, session drops and timeouts at the secret; secrets random around a unique core, decorated with format verbs, quotes and regex metacharacters. non-trivial = session in which at least one secret was actually transmitted redacted or the driver logged an error value; distinct by seed"
+	kinds := []string{"escalate-ask", "escalate-ask", "escalate-noask", "escalate-reject", "telnet", "telnet", "ssh", "ssh-passphrase", "platform-redacted", "interactive-hidden-failed", "interactive-hidden-ok",
+		"onx-generic", "onx-generic", "onx-network", "onx-network", "hidden-onopen"}
 	var cases []c11case
 	if strings.HasPrefix(c.replay, "c11case") {
 		f := strings.Fields(c.replay)
@@ -309,7 +344,7 @@ func runC11(c *ctx) {
 		}
 		cases = []c11case{cs}
 	} else {
-		for i := 0; i < c.n(520, 11000); i++ {
+		for i := 0; i < c.n(680, 14000); i++ {
 			cs := c11case{seed: c.rng.U64(), kind: kinds[c.rng.Intn(len(kinds))], level: []string{"debug", "debug", "info", "critical"}[c.rng.Intn(4)]}
 			cs.rejects = []int{0, 0, 1, 2, 3, 9}[c.rng.Intn(6)]
 			cs.fault = []string{"", "", "", "wfail-secret", "eof-secret", "wfail-return"}[c.rng.Intn(6)]
@@ -317,9 +352,11 @@ func runC11(c *ctx) {
 		}
 	}
 	type out struct {
-		leaks []string
-		info  string
-		n, rw int
+		leaks  []string
+		info   string
+		n, rw  int
+		errLog int
+		retSec bool
 	}
 	outs := make([]out, len(cases))
 	var wg sync.WaitGroup
@@ -330,8 +367,8 @@ func runC11(c *ctx) {
 		go func(i int) {
 			defer wg.Done()
 			defer func() { <-sem }()
-			l, info, n, rw := runC11case(cases[i])
-			outs[i] = out{l, info, n, rw}
+			l, info, n, rw, el, rs := runC11case(cases[i])
+			outs[i] = out{l, info, n, rw, el, rs}
 		}(i)
 	}
 	wg.Wait()
@@ -346,7 +383,14 @@ func runC11(c *ctx) {
 		res.Count("kind:" + cs.kind)
 		res.Count("level:" + cs.level)
 		res.Count("outcome:" + cs.kind + ":" + fl + ":" + o.info)
-		res.Case(line, o.rw > 0 || cs.level != "debug")
+		if o.errLog > 0 {
+			res.Count("driver-logged-an-error:" + cs.kind)
+		}
+		if o.retSec {
+			// not a log: the property speaks about the loggers and the channel log only
+			res.Count("returned-error-carries-secret:" + cs.kind)
+		}
+		res.Case(line, o.rw > 0 || o.errLog > 0 || cs.level != "debug")
 		res.InDomain++
 		if i%37 == 0 {
 			res.Sample(map[string]any{"case": line, "outcome": o.info, "log_messages": o.n, "redacted_writes_logged": o.rw})
